@@ -954,3 +954,31 @@ func collectVars(t *Term, seen map[*Term]bool, out *[]*Term) {
 		collectVars(a, seen, out)
 	}
 }
+
+// termKey renders a term structurally (for caching uninterpreted results).
+func termKey(t *Term) string {
+	var sb strings.Builder
+	var rec func(t *Term, depth int)
+	rec = func(t *Term, depth int) {
+		switch t.op {
+		case OpConst, OpBoolConst, OpFConst:
+			fmt.Fprintf(&sb, "#%d:%d", t.w, t.cval)
+			return
+		case OpVar, OpBoolVar, OpFVar:
+			sb.WriteString(t.name)
+			return
+		}
+		if depth > 40 {
+			fmt.Fprintf(&sb, "@%d", t.id)
+			return
+		}
+		fmt.Fprintf(&sb, "(%d/%d/%d", t.op, t.w, t.cval)
+		for _, a := range t.args {
+			sb.WriteByte(' ')
+			rec(a, depth+1)
+		}
+		sb.WriteByte(')')
+	}
+	rec(t, 0)
+	return sb.String()
+}
